@@ -26,6 +26,7 @@ PY = os.path.join(ROOT, '.venv', 'bin', 'python')
 CROSSHAIR = os.path.join(ROOT, '.venv', 'bin', 'crosshair')
 PLUGIN = os.path.join(ROOT, 'vf', 'plugin_reals.py')
 NCPU = int(os.environ.get('VERIF_JOBS') or (os.cpu_count() or 4))
+REPO = os.environ.get('VERIF_REPO') or '/repo'      # VERIF_REPO=<scratch copy>: run the checks against a copy (seeded changes)
 
 
 def def_lines(path):
@@ -35,7 +36,8 @@ def def_lines(path):
 
 def base_env(extra=None):
     env = dict(os.environ)
-    env['PYTHONPATH'] = ROOT + os.pathsep + '/repo'
+    env['PYTHONPATH'] = ROOT + os.pathsep + REPO
+    env['VERIF_REPO'] = REPO
     env['PYTHONHASHSEED'] = '0'
     env['PGRADD_VERIF'] = '1'
     env.setdefault('MPLCONFIGDIR', os.path.join(tempfile.gettempdir(), 'verif_mpl'))
@@ -202,6 +204,7 @@ def main(argv=None):
 
     t_start = time.time()
     sys.path.insert(0, ROOT)
+    sys.path.insert(0, REPO)
     os.environ.setdefault('PGRADD_VERIF', '1')
     modname = 'harness.%s' % prop
     mod = importlib.import_module(modname)
